@@ -234,9 +234,28 @@ func newSess(spec string) (*rwSess, string) {
 			}
 		}
 	})
+	// the chain is built twice from the same configuration value (a handler rebuilt on reload, a second listener):
+	// both builds are the configured chain and the configuration is what it was; exchanges alternate between the two
+	var before []string
+	for _, p := range pc.Chain {
+		before = append(before, p.Name)
+	}
+	h1, err1 := BuildChain(pc, inner)
 	h, err := BuildChain(pc, inner)
+	if (err1 == nil) != (err == nil) {
+		return nil, "builderr-second-build-differs"
+	}
 	if err != nil {
 		return nil, "builderr"
+	}
+	for i, p := range pc.Chain {
+		if i >= len(before) || p.Name != before[i] {
+			return nil, "builderr-configuration-changed-by-build"
+		}
+	}
+	verifBuildSeq++
+	if verifBuildSeq%2 == 0 {
+		h = h1
 	}
 	s.h = h
 	s.srv = httptest.NewServer(http.HandlerFunc(func(rw http.ResponseWriter, r *http.Request) {
@@ -358,6 +377,8 @@ func exchange(client *http.Client, w []string) string {
 	return fmt.Sprintf("status=%d ce=%s ct=%s xh=%s body=%d:%d gz=%d short=%d trace=%s",
 		resp.StatusCode, enc(ce), enc(resp.Header.Get("Content-Type")), strings.Join(xh, "&"), len(data), hsh.Sum32(), gz, short, tr)
 }
+
+var verifBuildSeq int
 
 // buildOnly: `bc name@k=T:v@…+name…` — does BuildChain accept this configuration?
 func buildOnly(spec string) string {
